@@ -56,8 +56,9 @@ Print Assumptions C19_token_list_is_exact_and_ordered.
    spelling, spaces before it) that passes the computable check source_ok - text runs, {{ }},
    directives with and without parentheses, identifiers, keywords, numbers, strings, every
    operator and bracket, nested braces and parentheses, any white space between the tokens of code;
-   any number of lines, any bytes but NUL, backslashes inside text, comments before the items of
-   text mode - the lexer model
+   any number of lines, any bytes but NUL, backslashes and escapes (\{{ and \@keyword, whose
+   backslash is not part of the literal while the token still spans the whole run) inside text,
+   comments before the items of text mode - the lexer model
    returns exactly the tokens of the items, each with its literal and the (line, column) of its first
    and last byte as the position function lc of Spec/Positions.v gives them, then EOF at the end *)
 From TW Require Import LexRound.
@@ -79,7 +80,8 @@ Example C19_sources_in_the_domain :
      "{{ a ? b : !c }}@dump(a)@use(""l"")@insert(""t"", 1)@reserve(""t"")";
      ("<ul>" ++ nl ++ "@each(v in xs)" ++ nl ++ "  <li>{{ v }}</li>" ++ nl ++ "@end" ++ nl ++ "</ul>" ++ nl);
      ("{{ a +" ++ nl ++ "   b }} c:\dir {{ ""two" ++ nl ++ "lines"" }} \ tail");
-     ("{{-- a comment {{ 1 }} @if --}}<p>{{-- two --}}{{--}}@if(x){{-- three" ++ nl ++ " lines --}}{{ x }}@end{{-- last --}}")]%string = true.
+     ("{{-- a comment {{ 1 }} @if --}}<p>{{-- two --}}{{--}}@if(x){{-- three" ++ nl ++ " lines --}}{{ x }}@end{{-- last --}}");
+     "\{{ x }} is {{ x }}, \@if(y) is @if(y)live@end \@end \{{"]%string = true.
 Proof. vm_compute. reflexivity. Qed.
 
 Theorem C19_domain_check_is_sound src :
